@@ -10,7 +10,7 @@ CORRESPONDENCE = ("Model/Client.lean (chooseMech, authFirstLine, mechResponse, c
 RULE = ("auth cases: user names / passwords (empty, NUL, non-ASCII, CR/LF, 1 KiB) x AUTH advertisements (subsets of PLAIN, LOGIN, XOAUTH2, "
         "unknown mechanisms, any order / case, 0..2 AUTH lines, `AUTH=PLAIN`) x all preference lists x challenge scripts (prompt "
         "spelling variants in any letter case, invalid base64, non-UTF-8, unknown prompts, empty 334, 9..13 challenges in a row, "
-        "4xx/5xx/garbage/close at each step) x programs A, AQ, AS; sync and tokio alternating; plus all subsets of offered "
+        "4xx/5xx/garbage/close at each step) x programs A, AQ, AS; sync (Credentials::new) and tokio (tuple conversion) alternating; plus all subsets of offered "
         "mechanisms x all preference lists of length <= 3 (exhaustive); urlcred: connection URLs carrying credentials, well-formed and refused "
         "(unknown scheme / tls parameter, bad port, percent-encoded non-UTF-8 in user name or password, no host), the error and Debug text "
         "searched for every spelling of the secret. Non-trivial = a mechanism is chosen and at least one "
@@ -62,7 +62,7 @@ def gen(tier, rng):
     # credentials in a connection URL are used as written, percent-decoded: `+`, `%2B`, `%40`, `%3A`, `%20`, non-ASCII
     for cl in "sa":
         for u, p in [("user", "pass"), ("bob+tag", "app+pass+word"), ("u%40example.org", "p%3Aw%2Fd"), ("a%2Bb", "c%20d"), ("%C3%A9t%C3%A9", "s%C3%A9cret"),
-                     ("user", "%FF"), ("%C3", "pw"), ("u-._~", "p-._~!$&'()*,;=")]:
+                     ("user", "%FF"), ("%C3", "pw"), ("u-._~", "p-._~!$&'()*,;="), ("", "api-key"), ("%20user%20", "%20pw%20")]:
             cases.append(f"urlauth\t{cl}\t{hexs(u)}\t{hexs(p)}")
     cases.append("ctor\tmech")
     cases += urlcred_cases(rng, {"quick": 150, "search": 500, "thorough": 3000}[tier])
